@@ -366,6 +366,18 @@ def node_ids(store, path=()):
     return out
 
 
+def wrong_paths(store, path=()):
+    """[(walked path, path_for())] for every node whose path_for() is not the
+    path it is found at (also a node of a subtree that was moved)."""
+    out = []
+    got = tuple(store.path_for())
+    if got != tuple(path):
+        out.append((path, got))
+    for k, child in store.inner.items():
+        out.extend(wrong_paths(child, path + (k,)))
+    return out
+
+
 def resident_names(engine):
     """{abs compartment path: sorted names of processes/steps stored there}"""
     from vivarium.core.process import Process
@@ -496,6 +508,12 @@ def compare_tick(spec, res, engine, model, t, ids_before,
         res.fail('residents', 'after batch %d %r: processes/steps in the '
                  'hierarchy %r, expected %r' % (t, batch, names, want_names),
                  'store.py:apply_update')
+        return False
+    bad = wrong_paths(engine.state)
+    if bad:
+        res.fail('path_for', 'after batch %d %r: node found at %r reports '
+                 'path_for() = %r' % (t, batch, bad[0][0], bad[0][1]),
+                 'store.py:path_for')
         return False
     if ids_before is not None:
         # identity: every node that exists before and after, and is not below
